@@ -606,11 +606,13 @@ class RemoteWorker(Worker, metaclass=RemoteWorkerMeta):
                 try:
                     # This follows how __mp_main__ is called in multiprocessing with "spawn"
                     # see _fixup_main_from_path in cpython's spawn.py
-                    main_module = types.ModuleType("__new_main__")
+                    # (use the same name as multiprocessing does: the parent process knows its main module under
+                    # this name as well, so objects of classes defined in the main script can travel back to it)
+                    main_module = types.ModuleType("__mp_main__")
                     main_content = runpy.run_path(self._main_path,
-                                                    run_name="__new_main__")
+                                                    run_name="__mp_main__")
                     main_module.__dict__.update(main_content)
-                    sys.modules['__main__'] = sys.modules['__new_main__'] = main_module
+                    sys.modules['__main__'] = sys.modules['__mp_main__'] = main_module
                 except:
                     logger.debug('Error occurred while trying to setup new main', exc_info=1)
                     pass
